@@ -38,6 +38,19 @@ CHECKS = {
         note="Trusted: Coq kernel+VM, stdlib; translator key_tr.py; numpy's field-name acceptance modelled by valid_cp and "
              "validated on every exponent 0..60000; streams through derivative/call/pickle/text files are checked against "
              "harness-side exact integer arithmetic, not against a theorem. Text files may raise for non-ASCII keys (allowed)."),
+    "C18": dict(
+        technique="Coq proof (ssreflect, path.v sort_stable): two-pass stable sort = stable sorting permutation for the "
+                  "(graded)(reverse) lexicographic order, uniqueness for distinct columns; glexindex no-duplicates/sorted/"
+                  "membership test; monomial refinement; bridge over facts read from glexsort.py/glexindex.py; "
+                  "exhaustive small domains run on /repo and on the model",
+        text="Theorems (Props/P_C18.v): glexsort returns a permutation of 0..n-1 under which the key columns are sorted "
+             "for the documented monomial order (any sizes), unique when columns are distinct; the order is total, "
+             "transitive, antisymmetric; glexindex has no duplicates, is sorted, and every member passes the bound test "
+             "the code applies; bindex = optional reversal; monomial's i-th element denotes the i-th exponent.",
+        note="Trusted: Coq kernel+VM, MathComp; translator sort_tr.py (stable argsort, upper & ~lower); numpy.lexsort "
+             "semantics validated by correspondence. Partial: 'every tuple inside the bounds is generated' (completeness "
+             "of the grid with step-wise truncation) and fractional norms .5/.8 rest on the exhaustive correspondence "
+             "against an exact harness oracle on the stated finite domain, not on a theorem."),
 }
 
 
